@@ -91,6 +91,21 @@ pub fn run(name: &str, a: &Args) -> Option<String> {
             let (s, d, h, m, sec, ms, us, ns) = a.dur(0).decompose();
             format!("{s} {d} {h} {m} {sec} {ms} {us} {ns}")
         }
+        "compose" => pdur(Duration::compose(
+            a.z(0) as i8, a.z(1) as u64, a.z(2) as u64, a.z(3) as u64, a.z(4) as u64, a.z(5) as u64, a.z(6) as u64, a.z(7) as u64,
+        )),
+        "compose_decompose" => {
+            let (s, d, h, m, sec, ms, us, ns) = a.dur(0).decompose();
+            pdur(Duration::compose(s, d, h, m, sec, ms, us, ns))
+        }
+        "to_std" => {
+            let s: std::time::Duration = a.dur(0).into();
+            format!("{} {}", s.as_secs(), s.subsec_nanos())
+        }
+        "from_std" => {
+            let d: Duration = std::time::Duration::new(a.z(0) as u64, a.z(1) as u32).into();
+            pdur(d)
+        }
         "signum" => format!("{}", a.dur(0).signum()),
         "subdivision" => match a.dur(0).subdivision(a.unit(2)) {
             Some(d) => format!("1 {}", pdur(d)),
